@@ -30,6 +30,7 @@ type hashScen struct {
 	Files  []hashFile `json:"files"`
 	List   []string   `json:"list"`   // relative paths handed to Hash (made absolute under root)
 	Vanish []string   `json:"vanish"` // removed at the moment a worker has received them
+	Churn  []string   `json:"churn"`  // removed and re-created in a tight loop by another goroutine while Hash runs
 	Order  []string   `json:"order"`  // if set: completion order to force through the worker.send gate
 	Gated  bool       `json:"gated"`
 	Reps   int        `json:"reps"`
@@ -331,6 +332,28 @@ func (h *hashChild) handle(line []byte) any {
 				}
 			}
 		})
+		// files that vanish (and come back) at arbitrary moments while being opened, stat'ed or read
+		stopChurn := make(chan struct{})
+		churnDone := make(chan struct{})
+		if len(s.Churn) > 0 {
+			go func() {
+				defer close(churnDone)
+				for {
+					for _, p := range s.Churn {
+						abs := filepath.Join(h.root, p)
+						os.Remove(abs)
+						os.WriteFile(abs, []byte("churn"), 0o644)
+						select {
+						case <-stopChurn:
+							return
+						default:
+						}
+					}
+				}
+			}()
+		} else {
+			close(churnDone)
+		}
 		before := runtime.NumGoroutine()
 		type hres struct {
 			d   string
@@ -396,6 +419,8 @@ func (h *hashChild) handle(line []byte) any {
 			mu.Unlock()
 		}
 		r := <-resc
+		close(stopChurn)
+		<-churnDone
 		if s.Trace && rep == 0 {
 			// the producer and the closer log `jobs.closed` / `results.closed` after the fact: wait for them (bounded)
 			for t := 0; t < 200; t++ {
